@@ -88,9 +88,7 @@ class Canonicalizer:
             )
         elif isinstance(expression, Product):
             # note: safe already sorts
-            return Product.safe(
-                self.canonicalize(subexpr) for subexpr in _flatten_product(expression)
-            )
+            return Product.safe(self._canonical_factors(expression))
         elif isinstance(expression, Fraction):
             numerator = self.canonicalize(expression.numerator)
             # TODO check if there's a zero in numerator, then return zero if so
@@ -104,6 +102,16 @@ class Canonicalizer:
             return expression
         else:
             raise TypeError
+
+
+    def _canonical_factors(self, product: Product) -> Iterable[Expression]:
+        # the canonical form of a factor can itself be a product (x / (1 / y) is x * y): flatten again
+        for subexpr in _flatten_product(product):
+            canonical = self.canonicalize(subexpr)
+            if isinstance(canonical, Product):
+                yield from canonical.expressions
+            else:
+                yield canonical
 
 
 def _flatten_product(product: Product) -> Iterable[Expression]:
